@@ -142,8 +142,7 @@ structure Sim (k : Kind) (ρ : Nat → Nat) (M M' : PM) : Prop where
   models : M'.models = M.models.map ρ
   mctx : M'.mctx = M.mctx.map ρ
   mstate : ∀ m ∈ M.models, alookup (ρ m) M'.mstate = alookup m M.mstate
-  ctx : k.locked = true → k.nested = false →
-    ∀ m ∈ M.models, lookupD (ρ m) M'.ctx = (lookupD m M.ctx).map ρ
+  ctx : k.locked = true → ∀ m ∈ M.models, lookupD (ρ m) M'.ctx = (lookupD m M.ctx).map ρ
   /-- presence only: the value (what the graph shows) is never read by an event, and differs
       legitimately (an async original shows no active state after a transition, its copy does) -/
   graphs : k.graph = true → ∀ m ∈ M.models, (alookup (ρ m) M'.graphs).isNone = (alookup m M.graphs).isNone
@@ -172,9 +171,9 @@ theorem sim_touch {k ρ M M'} (h : Sim k ρ M M') (m : Nat) : Sim k ρ (touch k 
   mctx := by rw [touch_mctx, touch_mctx]; exact h.mctx
   mstate := by rw [touch_models, touch_mstate, touch_mstate]; exact h.mstate
   ctx := by
-    intro h1 h2 x hx
+    intro h1 x hx
     rw [touch_models] at hx
-    rw [lookupD_touch, lookupD_touch]; exact h.ctx h1 h2 x hx
+    rw [lookupD_touch, lookupD_touch]; exact h.ctx h1 x hx
   graphs := by rw [touch_models, touch_graphs, touch_graphs]; exact h.graphs
   qdict := by rw [touch_models, touch_qdict, touch_qdict]; exact h.qdict
 
@@ -185,8 +184,13 @@ theorem contexts_sim {k ρ M M'} (h : Sim k ρ M M') (m : Nat) (hm : m ∈ M.mod
   | false => simp
   | true =>
     cases h2 : k.nested with
-    | true => simp [h.mctx]
-    | false => simp [h.ctx h1 h2 m hm]
+    | true =>
+      cases h3 : k.nestedModelCtx with
+      | false => simp [h.mctx]
+      | true =>
+        simp only [if_true, h.ctx h1 m hm, h.mctx, List.isEmpty_map]
+        split <;> rfl
+    | false => simp [h.ctx h1 m hm]
 
 theorem stateOf_sim {k ρ M M'} (h : Sim k ρ M M') (m : Nat) (hm : m ∈ M.models) :
     M'.stateOf (ρ m) = M.stateOf m := by
@@ -329,20 +333,36 @@ theorem sim_run {k ρ} (δ : Delta) (hρ : Inj ρ) (held : List Nat) :
 
 /-! ### the round trip -/
 
-/-- every registered model of a graph machine has a graph (established by `add_model`; nothing
-    ever deletes one) -/
+/-- every registered model of a graph machine has a graph, every registered model of a
+    `queued='model'` machine has a queue (both established by `add_model`; nothing deletes a graph,
+    `remove_model` deletes the queue together with the registration) -/
 def WF (k : Kind) (M : PM) : Prop :=
-  k.graph = true → ∀ m ∈ M.models, (alookup m M.graphs).isSome = true
+  (k.graph = true → ∀ m ∈ M.models, (alookup m M.graphs).isSome = true) ∧
+  (k.qmodel = true → ∀ m ∈ M.models, (alookup m M.qdict).isSome = true)
+
+theorem base_fields (k : Kind) (ρ : Nat → Nat) (M : PM) :
+    (baseSetstate k (transport ρ (baseGetstate k M))).models = M.models.map ρ ∧
+    (baseSetstate k (transport ρ (baseGetstate k M))).mctx = M.mctx.map ρ ∧
+    (baseSetstate k (transport ρ (baseGetstate k M))).mstate = M.mstate.map fun e => (ρ e.1, e.2) := by
+  unfold baseSetstate baseGetstate
+  cases k.locked <;> cases k.qmodel <;> exact ⟨rfl, rfl, rfl⟩
+
+theorem roundtrip_base (k : Kind) (ρ : Nat → Nat) (M : PM) :
+    (roundtrip k ρ M).models = (baseSetstate k (transport ρ (baseGetstate k M))).models ∧
+    (roundtrip k ρ M).mctx = (baseSetstate k (transport ρ (baseGetstate k M))).mctx ∧
+    (roundtrip k ρ M).mstate = (baseSetstate k (transport ρ (baseGetstate k M))).mstate ∧
+    (roundtrip k ρ M).ctx = (baseSetstate k (transport ρ (baseGetstate k M))).ctx ∧
+    (roundtrip k ρ M).qdict = (baseSetstate k (transport ρ (baseGetstate k M))).qdict := by
+  unfold roundtrip setstate getstate baseSetstate baseGetstate
+  cases k.graph <;> cases k.locked <;> cases k.qmodel <;> exact ⟨rfl, rfl, rfl, rfl, rfl⟩
 
 theorem roundtrip_mstate (k : Kind) (ρ : Nat → Nat) (M : PM) :
-    (roundtrip k ρ M).mstate = M.mstate.map fun e => (ρ e.1, e.2) := by
-  unfold roundtrip setstate getstate
-  cases k.graph <;> cases k.locked <;> rfl
+    (roundtrip k ρ M).mstate = M.mstate.map fun e => (ρ e.1, e.2) :=
+  (roundtrip_base k ρ M).2.2.1.trans (base_fields k ρ M).2.2
 
 theorem roundtrip_models (k : Kind) (ρ : Nat → Nat) (M : PM) :
-    (roundtrip k ρ M).models = M.models.map ρ ∧ (roundtrip k ρ M).mctx = M.mctx.map ρ := by
-  unfold roundtrip setstate getstate
-  cases k.graph <;> cases k.locked <;> exact ⟨rfl, rfl⟩
+    (roundtrip k ρ M).models = M.models.map ρ ∧ (roundtrip k ρ M).mctx = M.mctx.map ρ :=
+  ⟨(roundtrip_base k ρ M).1.trans (base_fields k ρ M).1, (roundtrip_base k ρ M).2.1.trans (base_fields k ρ M).2.1⟩
 
 theorem roundtrip_stateOf (k : Kind) (ρ : Nat → Nat) (hρ : Inj ρ) (M : PM) (m : Nat) :
     (roundtrip k ρ M).stateOf (ρ m) = M.stateOf m := by
@@ -352,13 +372,13 @@ theorem roundtrip_stateOf (k : Kind) (ρ : Nat → Nat) (hρ : Inj ρ) (M : PM) 
   simp only [Option.map_id'] at this
   rw [this]
 
-/-- `LockedMachine` (without graph support): the new map has exactly one entry per model, under the
-    new id, in registration order, holding that model's (translated) contexts -/
-theorem locked_ctx (k : Kind) (hg : k.graph = false) (hl : k.locked = true) (ρ : Nat → Nat) (hρ : Inj ρ)
-    (M : PM) :
+/-- every locked class (with or without graph support): the new map has exactly one entry per model,
+    under the new id, in registration order, holding that model's (translated) contexts -/
+theorem locked_ctx (k : Kind) (hl : k.locked = true) (ρ : Nat → Nat) (hρ : Inj ρ) (M : PM) :
     (roundtrip k ρ M).ctx = M.models.map fun m => (ρ m, (lookupD m M.ctx).map ρ) := by
-  unfold roundtrip setstate getstate
-  simp only [hg, hl, Bool.false_eq_true, if_false, if_true]
+  rw [(roundtrip_base k ρ M).2.2.2.1]
+  unfold baseSetstate baseGetstate
+  simp only [hl, if_true]
   simp only [lockedSetstate, transport, lockedGetstate, defaultGetstate, defaultSetstate, Option.map_some,
     Option.getD_some, List.map_map]
   apply List.map_congr_left
@@ -368,19 +388,43 @@ theorem locked_ctx (k : Kind) (hg : k.graph = false) (hl : k.locked = true) (ρ 
   have := alookup_of_list ρ hρ (fun x => (lookupD x M.ctx).map ρ) m M.models hm
   simp only [Function.comp, hcomp, this, Option.getD_some]
 
+/-- classes that are not locked keep the context map they have (it is empty: no such attribute) -/
+theorem unlocked_ctx (k : Kind) (hl : k.locked = false) (ρ : Nat → Nat) (M : PM) :
+    (roundtrip k ρ M).ctx = M.ctx.map fun e => (e.1, e.2.map ρ) := by
+  rw [(roundtrip_base k ρ M).2.2.2.1]
+  unfold baseSetstate baseGetstate
+  simp only [hl, Bool.false_eq_true, if_false]
+  cases k.qmodel <;> rfl
+
+/-- async classes with `queued='model'`: one queue per model under the new id, registration order -/
+theorem async_qdict (k : Kind) (hl : k.locked = false) (hq : k.qmodel = true) (ρ : Nat → Nat) (M : PM) :
+    (roundtrip k ρ M).qdict = M.models.map fun m => (ρ m, lookupD m M.qdict) := by
+  rw [(roundtrip_base k ρ M).2.2.2.2]
+  unfold baseSetstate baseGetstate
+  simp only [hl, hq, Bool.false_eq_true, if_false, if_true]
+  simp only [asyncSetstate, transport, asyncGetstate, defaultGetstate, defaultSetstate, Option.map_some,
+    Option.getD_some, List.map_map]
+  rfl
+
 /-- graph classes: one fresh graph per model under the new id, showing the model's state -/
 theorem graph_graphs (k : Kind) (hg : k.graph = true) (ρ : Nat → Nat) (hρ : Inj ρ) (M : PM) :
     (roundtrip k ρ M).graphs = M.models.map fun m => (ρ m, M.stateOf m + 1) := by
-  unfold roundtrip setstate getstate
-  simp only [hg, if_true, graphSetstate, transport, graphGetstate, defaultGetstate, defaultSetstate,
-    List.map_map]
+  have hb := base_fields k ρ M
+  have : (roundtrip k ρ M).graphs =
+      (baseSetstate k (transport ρ (baseGetstate k M))).models.map fun m =>
+        (m, (baseSetstate k (transport ρ (baseGetstate k M))).stateOf m + 1) := by
+    unfold roundtrip setstate getstate
+    simp only [hg, if_true]
+    unfold baseSetstate baseGetstate
+    cases k.locked <;> cases k.qmodel <;> rfl
+  rw [this, hb.1, List.map_map]
   apply List.map_congr_left
   intro m _
-  have := alookup_map_key ρ hρ (fun s : Nat => s) m M.mstate
-  simp only [Option.map_id'] at this
-  simp only [Function.comp, PM.stateOf, this]
+  have h2 := alookup_map_key ρ hρ (fun s : Nat => s) m M.mstate
+  simp only [Option.map_id'] at h2
+  simp only [Function.comp, PM.stateOf, hb.2.2, h2]
 
-theorem roundtrip_sim (k : Kind) (hk : k.rekeys = true) (ρ : Nat → Nat) (hρ : Inj ρ) (M : PM) (hwf : WF k M) :
+theorem roundtrip_sim (k : Kind) (hk : k.predefined = true) (ρ : Nat → Nat) (hρ : Inj ρ) (M : PM) (hwf : WF k M) :
     Sim k ρ M (roundtrip k ρ M) where
   models := (roundtrip_models k ρ M).1
   mctx := (roundtrip_models k ρ M).2
@@ -390,25 +434,30 @@ theorem roundtrip_sim (k : Kind) (hk : k.rekeys = true) (ρ : Nat → Nat) (hρ 
     have := alookup_map_key ρ hρ (fun s : Nat => s) m M.mstate
     simpa only [Option.map_id'] using this
   ctx := by
-    intro hl _ m hm
-    have hg : k.graph = false := by
-      cases hg : k.graph with
-      | false => rfl
-      | true => simp [Kind.rekeys, hg, hl] at hk
-    rw [locked_ctx k hg hl ρ hρ M]
+    intro hl m hm
+    rw [locked_ctx k hl ρ hρ M]
     unfold lookupD
     rw [alookup_of_list ρ hρ (fun x => ((alookup x M.ctx).getD []).map ρ) m M.models hm]
     rfl
   graphs := by
     intro hg m hm
     rw [graph_graphs k hg ρ hρ M, alookup_of_list ρ hρ (fun x => M.stateOf x + 1) m M.models hm]
-    have := hwf hg m hm
+    have := hwf.1 hg m hm
     cases hl : alookup m M.graphs with
     | none => rw [hl] at this; cases this
     | some _ => rfl
   qdict := by
-    intro hq
-    simp [Kind.rekeys, hq] at hk
+    intro hq m hm
+    have hl : k.locked = false := by
+      cases hl : k.locked with
+      | false => rfl
+      | true =>
+        cases ha : k.asyncio <;> simp [Kind.predefined, hl, hq, ha] at hk
+    rw [async_qdict k hl hq ρ M, alookup_of_list ρ hρ (fun x => lookupD x M.qdict) m M.models hm]
+    have := hwf.2 hq m hm
+    cases hx : alookup m M.qdict with
+    | none => rw [hx] at this; cases this
+    | some _ => rfl
 
 /-! ### locks -/
 
@@ -430,7 +479,14 @@ theorem contexts_sub (k : Kind) (M : PM) (m l : Nat) (h : l ∈ contexts k M m) 
   | false => simp [hl] at h
   | true =>
     cases hn : k.nested with
-    | true => simp [hl, hn] at h; exact Or.inl h
+    | true =>
+      cases hc : k.nestedModelCtx with
+      | false => simp [hl, hn, hc] at h; exact Or.inl h
+      | true =>
+        simp only [hl, hn, hc, if_true] at h
+        split at h
+        · exact Or.inl h
+        · exact Or.inr (lookupD_sub m l _ h)
     | false => simp [hl, hn] at h; exact Or.inr (lookupD_sub m l _ h)
 
 theorem trigger_unheld (k : Kind) (δ : Delta) (held : List Nat) (M : PM) (ep m ev : Nat)
@@ -486,29 +542,19 @@ theorem lockIds_roundtrip (k : Kind) (ρ : Nat → Nat) (hρ : Inj ρ) (M : PM) 
   · rw [(roundtrip_models k ρ M).2] at hl
     obtain ⟨a, ha, e⟩ := List.mem_map.mp hl
     exact ⟨a, by unfold lockIds; exact List.mem_append_left _ ha, e.symm⟩
-  · cases hg : k.graph with
+  · cases hlk : k.locked with
     | true =>
-      unfold roundtrip setstate getstate at hl
-      simp only [hg, if_true, graphSetstate, transport, graphGetstate, defaultGetstate, defaultSetstate,
-        Option.map_some, Option.getD_some, List.mem_flatMap, List.mem_map] at hl
+      rw [locked_ctx k hlk ρ hρ M] at hl
+      simp only [List.mem_flatMap, List.mem_map] at hl
+      obtain ⟨e, ⟨m, _, rfl⟩, hle⟩ := hl
+      obtain ⟨a, ha, rfl⟩ := List.mem_map.mp hle
+      exact ⟨a, by unfold lockIds; exact List.mem_append_right _ (lookupD_sub m a _ ha), rfl⟩
+    | false =>
+      rw [unlocked_ctx k hlk ρ M] at hl
+      simp only [List.mem_flatMap, List.mem_map] at hl
       obtain ⟨e, ⟨e0, he0, rfl⟩, hle⟩ := hl
       obtain ⟨a, ha, rfl⟩ := List.mem_map.mp hle
       exact ⟨a, by unfold lockIds; exact List.mem_append_right _ (List.mem_flatMap.mpr ⟨e0, he0, ha⟩), rfl⟩
-    | false =>
-      cases hlk : k.locked with
-      | true =>
-        rw [locked_ctx k hg hlk ρ hρ M] at hl
-        simp only [List.mem_flatMap, List.mem_map] at hl
-        obtain ⟨e, ⟨m, _, rfl⟩, hle⟩ := hl
-        obtain ⟨a, ha, rfl⟩ := List.mem_map.mp hle
-        exact ⟨a, by unfold lockIds; exact List.mem_append_right _ (lookupD_sub m a _ ha), rfl⟩
-      | false =>
-        unfold roundtrip setstate getstate at hl
-        simp only [hg, hlk, Bool.false_eq_true, if_false, transport, defaultGetstate, defaultSetstate,
-          Option.map_some, Option.getD_some, List.mem_flatMap, List.mem_map] at hl
-        obtain ⟨e, ⟨e0, he0, rfl⟩, hle⟩ := hl
-        obtain ⟨a, ha, rfl⟩ := List.mem_map.mp hle
-        exact ⟨a, by unfold lockIds; exact List.mem_append_right _ (List.mem_flatMap.mpr ⟨e0, he0, ha⟩), rfl⟩
 
 /-! ### frame: an event on model `m` writes only under the key `m` -/
 
